@@ -338,7 +338,7 @@ fn reverse_chunk<T: Fl + Send + Sync>(sp: &Space<T>, srcs: &[(usize, [f64; 3])],
             let sfx = match known { Some(k) => format!("-in-{}", k), None => String::new() };
             // ---- the components are numbers
             let hsl_top = sp.name == "Hsl" && !finite && { let (mx, mn) = (s64.iter().cloned().fold(0.0, f64::max), s64.iter().cloned().fold(1.0, f64::min)); mx == 1.0 && mn < 1.0 && T::of(mx + mn).to64() == 2.0 };
-            if hsl_top { acc.check(finite, &format!("hsl-white-inf-C15:finite:{}", key), || format!("{} {:?} -> Hsl{:?}: max + min rounds to 2, the saturation is d / (2 - 2)", TARGETS[t], src, x)); }
+            if hsl_top { acc.check(finite, &format!("hsl-white-inf-C15:finite:{}", key), || format!("{} {:?} -> Hsl{:?}: max = 1 and max + min rounds to 2; `d / (2 - sum)` is d / 0 there (repaired by 4f36dd5: `(1 - max) + (1 - min)`)", TARGETS[t], src, x)); }
             else { acc.check(finite, &format!("{}finite:{}", pre, key), || format!("{} {:?} -> {}{:?}", TARGETS[t], src, sp.name, x)); }
             // ---- within the documented bounds up to the same tolerance (see `witness`)
             let (mut over_w, mut w, mut xw, mut tried) = (f64::INFINITY, src, x, 0usize);
